@@ -166,6 +166,61 @@ def r2_walkers(ctx):
                       where=where(f))
 
 
+def r2b_non_destructive(ctx, rid=None):
+    """the walkers build new containers: none of them stores into, deletes
+    from or calls a mutating method on the payload it was given (encoding a
+    packet must not alter the application's object, or a second send of the
+    same object carries placeholders instead of bytes)."""
+    m = ctx.model
+    MUT = ('append', 'extend', 'insert', 'pop', 'remove', 'clear', 'update',
+           'setdefault', 'popitem', 'sort', 'reverse', '__setitem__')
+    for name in WALKERS + ['_deconstruct_binary', 'encode', '_to_dict']:
+        f = m.own_method('Packet', name)
+        pay = f.params[1] if len(f.params) > 1 else 'self.data'
+        bad = None
+        for n in walk_own(f.node):
+            tg = []
+            if isinstance(n, ast.Assign):
+                tg = n.targets
+            elif isinstance(n, (ast.AugAssign,)):
+                tg = [n.target]
+            elif isinstance(n, ast.Delete):
+                tg = n.targets
+            for t in tg:
+                if isinstance(t, ast.Subscript) and \
+                        U(t.value) in (pay, 'self.data'):
+                    bad = (n, 'stores into ' + U(t))
+            if isinstance(n, ast.Call) and \
+                    isinstance(n.func, ast.Attribute) and \
+                    n.func.attr in MUT and U(n.func.value) in (pay,
+                                                               'self.data'):
+                bad = (n, 'calls ' + U(n.func))
+            # aliasing the payload and mutating the alias
+            if isinstance(n, (ast.For, ast.AsyncFor)) and \
+                    'enumerate(%s)' % pay in U(n.iter) or \
+                    isinstance(n, (ast.For, ast.AsyncFor)) and \
+                    U(n.iter) in ('%s.items()' % pay,
+                                  'list(%s.items())' % pay,
+                                  'range(len(%s))' % pay):
+                for x in ast.walk(n):
+                    if isinstance(x, ast.Assign) and any(
+                            isinstance(t, ast.Subscript) and
+                            U(t.value) == pay for t in x.targets):
+                        bad = (x, 'stores into ' + U(x.targets[0]))
+        ctx.check(bad is None, 'Packet.' + name, 'does not modify the '
+                  'payload it walks', key='mutates-payload',
+                  reason='Packet.%s %s: encoding alters the caller\'s '
+                  'payload object, a second send of the same object would '
+                  'carry placeholders instead of the byte strings'
+                  % (name, bad[1] if bad else ''),
+                  where=where(f, bad[0] if bad else None), rid=rid)
+    f = m.own_method('Packet', 'encode')
+    st = [n for n in walk_own(f.node) if isinstance(n, ast.Assign) and
+          any(U(t) == 'self.data' for t in n.targets)]
+    ctx.check(not st, 'Packet.encode', 'encode() leaves self.data alone',
+              key='encode-rebinds-data', where=where(f), rid=rid)
+
+
 def r3_placeholder(ctx):
     m = ctx.model
     dec = m.own_method('Packet', '_deconstruct_binary_internal')
@@ -412,6 +467,7 @@ def run(ctx):
     ctx.rule('C01.R2', 'walker agreement: same container kinds, bytes leaf, '
              'dict values with keys kept', floor=10)
     r2_walkers(ctx)
+    r2b_non_destructive(ctx)
     ctx.rule('C01.R3', 'placeholder schema and depth-first numbering',
              floor=5)
     r3_placeholder(ctx)
